@@ -7,9 +7,15 @@
     flattenDeepArray, lines.
 
   An array argument is a list of *lazily evaluated* elements: `none` = evaluating the element raises
-  (`arr.iter()` yields `Result<Val>`, `item?` propagates).  Callbacks may fail (`none`).  `Loop`
-  definitions mirror the Rust loop statement by statement (accumulator, `enumerate` counter, early
-  `return`, `break 'eager`); `Spec` definitions are the documented meaning on plain lists.
+  (`arr.iter()` yields `Result<Val>`, `item?` propagates; `arr.iter_lazy()` yields the thunks
+  themselves).  Callbacks may fail (`none`).  `Loop` definitions mirror the Rust loop statement by
+  statement (accumulator, `enumerate` counter, early `return`); `Spec` definitions are the
+  documented meaning.
+
+  Round 4: the loops that hand an element to a jsonnet callback (`foldl`/`foldr`, `flatMap`,
+  `minArray`/`maxArray`, `filter`) pass the THUNK, as the documented definitions pass `arr[i]`: such
+  a callback has type `Option α → …` (`none` = the thunk fails when forced) and decides itself
+  whether the element is evaluated.  A callback that uses its argument is `fun e => e.bind g`.
 
   Imports only Model/StdArr (core Lean) so that the driver links.
 -/
@@ -26,39 +32,66 @@ def evalAll : List (Option α) → Option (List α)
   | none :: _ => none
   | some x :: r => (evalAll r).map (x :: ·)
 
-/-! ### foldl / foldr — `builtin_foldl`, `builtin_foldr` -/
+/-! ### foldl / foldr — `builtin_foldl`, `builtin_foldr`
 
-/-- `for i in arr.iter() { acc = func.call(acc, i?)?; }` -/
-def foldlLoop (f : β → α → Option β) : β → List (Option α) → Option β
-  | acc, [] => some acc
-  | _, none :: _ => none
-  | acc, some x :: r =>
-    match f acc x with
+The callback receives two thunks: the running value and the element.  The running value is `init`
+(unevaluated) in the first call and an evaluated result afterwards
+(`acc = Thunk::evaluated(func.call(acc, i)?)`); the final `acc.evaluate()` forces `init` only when
+the collection is empty. -/
+
+/-- `for i in arr.iter_lazy() { acc = Thunk::evaluated(func.call(acc, i)?); } acc.evaluate()` -/
+def foldlLoop (f : Option β → Option α → Option β) : Option β → List (Option α) → Option β
+  | acc, [] => acc
+  | acc, e :: r =>
+    match f acc e with
     | none => none
-    | some a => foldlLoop f a r
+    | some a => foldlLoop f (some a) r
 
-/-- the body of `for i in arr.iter().rev() { acc = func.call(i?, acc)?; }` over the already
-    reversed sequence -/
-def foldrGo (f : α → β → Option β) : β → List (Option α) → Option β
-  | acc, [] => some acc
-  | _, none :: _ => none
-  | acc, some x :: r =>
-    match f x acc with
+/-- the body of `for i in arr.iter_lazy().rev() { acc = Thunk::evaluated(func.call(i, acc)?); }` over
+    the already reversed sequence -/
+def foldrGo (f : Option α → Option β → Option β) : Option β → List (Option α) → Option β
+  | acc, [] => acc
+  | acc, e :: r =>
+    match f e acc with
     | none => none
-    | some a => foldrGo f a r
+    | some a => foldrGo f (some a) r
 
-def foldrLoop (f : α → β → Option β) (init : β) (xs : List (Option α)) : Option β :=
+def foldrLoop (f : Option α → Option β → Option β) (init : Option β) (xs : List (Option α)) : Option β :=
   foldrGo f init xs.reverse
 
-/-- reference: `f(...f(f(init, x0), x1)..., xn)` -/
-def foldlSpec (f : β → α → Option β) : β → List α → Option β
-  | acc, [] => some acc
-  | acc, x :: r => (f acc x).bind (fun a => foldlSpec f a r)
+/-- one step of the documented recursion `aux(func, arr, func(running, arr[idx]), idx + 1) tailstrict`
+    on the state "the call so far failed (`none`) / the thunk handed on as `running`": the call is
+    evaluated (tailstrict), its arguments are not -/
+def foldStep (f : Option β → Option α → Option β) (st : Option (Option β)) (e : Option α) :
+    Option (Option β) :=
+  st.bind (fun running => (f running e).map some)
 
-/-- reference: `f(x0, f(x1, ... f(xn, init)))` -/
-def foldrSpec (f : α → β → Option β) (init : β) : List α → Option β
+/-- reference: `f(...f(f(init, x0), x1)..., xn)`, every call evaluated before the next, `init` and
+    the elements handed over unevaluated; the result of the last call, or `init` itself -/
+def foldlSpec (f : Option β → Option α → Option β) (init : Option β) (xs : List (Option α)) : Option β :=
+  (xs.foldl (foldStep f) (some init)).bind id
+
+/-- reference: `f(x0, f(x1, ... f(xn, init)))` in the same sense -/
+def foldrSpec (f : Option α → Option β → Option β) (init : Option β) (xs : List (Option α)) : Option β :=
+  (xs.foldr (fun e st => foldStep (fun acc x => f x acc) st e) (some init)).bind id
+
+/-- a callback that uses both arguments (the shape `function(acc, x) … acc … x …`) -/
+def strict2 (g : β → α → Option β) (acc : Option β) (e : Option α) : Option β :=
+  acc.bind (fun a => e.bind (g a))
+
+/-- the same for the argument order of `foldr` (`function(x, acc) …`) -/
+def strict2r (g : α → β → Option β) (e : Option α) (acc : Option β) : Option β :=
+  acc.bind (fun a => e.bind (fun x => g x a))
+
+/-- round-3 reference for such callbacks, on evaluated elements: `f(...f(f(init, x0), x1)..., xn)` -/
+def foldlStrict (f : β → α → Option β) : β → List α → Option β
+  | acc, [] => some acc
+  | acc, x :: r => (f acc x).bind (fun a => foldlStrict f a r)
+
+/-- round-3 reference: `f(x0, f(x1, ... f(xn, init)))` -/
+def foldrStrict (f : α → β → Option β) (init : β) : List α → Option β
   | [] => some init
-  | x :: r => (foldrSpec f init r).bind (f x)
+  | x :: r => (foldrStrict f init r).bind (f x)
 
 /-! ### any / all / member — loops with an early `return` -/
 
@@ -142,20 +175,20 @@ def findSpec (t : α → Option Bool) (xs : List (Option α)) : Option (List Nat
 def countSpec (t : α → Option Bool) (xs : List (Option α)) : Option Nat :=
   (verdicts t xs).map (fun bs => bs.count true)
 
-/-! ### filter — `ArrValue::filter`: eager attempt, `break 'eager` on a failing element, lazy pass
+/-! ### filter — `ArrValue::filter`: a value pass for arrays whose elements are values already
+(`iter_cheap()`), otherwise one pass over the thunks
 
 The predicate receives the element *thunk* (`Option α`): it may or may not force it. -/
 
-/-- the `'eager` block: outer `none` = the predicate failed (`?`), `some none` = `break 'eager` -/
-def filterEager (p : Option α → Option Bool) : List α → List (Option α) → Option (Option (List α))
-  | out, [] => some (some out)
-  | _, none :: _ => some none
-  | out, some x :: r =>
+/-- `if let Some(cheap) = self.iter_cheap() { for i in cheap { if filter.call(lazy(i))? { out.push(i) } } }` -/
+def filterCheap (p : Option α → Option Bool) : List α → List α → Option (List α)
+  | out, [] => some out
+  | out, x :: r =>
     match p (some x) with
     | none => none
-    | some b => filterEager p (if b then out ++ [x] else out) r
+    | some b => filterCheap p (if b then out ++ [x] else out) r
 
-/-- the second loop over `iter_lazy()` -/
+/-- the loop over `iter_lazy()` -/
 def filterLazy (p : Option α → Option Bool) : List (Option α) → List (Option α) → Option (List (Option α))
   | out, [] => some out
   | out, e :: r =>
@@ -163,11 +196,12 @@ def filterLazy (p : Option α → Option Bool) : List (Option α) → List (Opti
     | none => none
     | some b => filterLazy p (if b then out ++ [e] else out) r
 
-def filterM (p : Option α → Option Bool) (xs : List (Option α)) : Option (List (Option α)) :=
-  match filterEager p [] xs with
-  | none => none
-  | some (some out) => some (out.map some)          -- `Self::eager(out)`
-  | some none => filterLazy p [] xs                 -- `Self::lazy(out)`
+/-- `cheap` = `is_cheap()` of the array representation (eager, range, chars, bytes and views of
+    those): then every element is a value and nothing is evaluated by reading it -/
+def filterM (p : Option α → Option Bool) (cheap : Bool) (xs : List (Option α)) : Option (List (Option α)) :=
+  match (if cheap then evalAll xs else none) with
+  | some vs => (filterCheap p [] vs).map (fun out => out.map some)   -- `Self::eager(out)`
+  | none => filterLazy p [] xs                                        -- `Self::lazy(out)`
 
 /-- reference: keep the elements on which the predicate says `true`; the predicate must say
     `true`/`false` on every element -/
@@ -180,9 +214,9 @@ def filterSpec (p : Option α → Option Bool) : List (Option α) → Option (Li
     | _, _ => none
 
 /-- `builtin_filter_map`: `arr.filter(filter_func)?.map(map_func)` — the map is a lazy view -/
-def filterMapM (p : Option α → Option Bool) (g : Option α → Option β) (xs : List (Option α)) :
-    Option (List (Option β)) :=
-  (filterM p xs).map (fun ys => ys.map g)
+def filterMapM (p : Option α → Option Bool) (g : Option α → Option β) (cheap : Bool)
+    (xs : List (Option α)) : Option (List (Option β)) :=
+  (filterM p cheap xs).map (fun ys => ys.map g)
 
 /-- `MappedArray` with `ArrayMapper::WithIndex`: element `index` is `f.call(index as u32, thunk)` -/
 def mapIdxLoop (f : Nat → Option α → Option β) : Nat → List (Option α) → List (Option β)
@@ -191,19 +225,26 @@ def mapIdxLoop (f : Nat → Option α → Option β) : Nat → List (Option α) 
 
 /-! ### flatMap — `builtin_flatmap` (both branches have this shape)
 
-`f x = none`: the call failed or returned something that is neither null nor a sequence;
-`some none`: null (skipped); `some (some ys)`: the pieces to append. -/
+The callback receives the element thunk.  `f e = none`: the call failed or returned something that
+is neither null nor a sequence; `some none`: null (skipped); `some (some ys)`: the pieces to append
+(for the array branch the pieces are the thunks of the returned array: `out.extend(o.iter_lazy())`,
+so `β` is itself a type of lazily evaluated elements there). -/
 
-def flatMapLoop (f : α → Option (Option (List β))) : List β → List (Option α) → Option (List β)
+def flatMapLoop (f : Option α → Option (Option (List β))) : List β → List (Option α) → Option (List β)
   | out, [] => some out
-  | _, none :: _ => none
-  | out, some x :: r =>
-    match f x with
+  | out, e :: r =>
+    match f e with
     | none => none
     | some none => flatMapLoop f out r
     | some (some ys) => flatMapLoop f (out ++ ys) r
 
-def flatMapSpec (f : α → Option (Option (List β))) (xs : List (Option α)) : Option (List β) :=
+/-- reference `flattenArrays(makeArray(length(arr), function(i) func(arr[i])))`: every call
+    succeeds with null or a sequence, result = concatenation of the non-null pieces -/
+def flatMapSpec (f : Option α → Option (Option (List β))) (xs : List (Option α)) : Option (List β) :=
+  (evalAll (xs.map f)).map (fun rs => (rs.filterMap id).flatten)
+
+/-- round-3 reference for callbacks that use their argument, on evaluated elements -/
+def flatMapStrict (f : α → Option (Option (List β))) (xs : List (Option α)) : Option (List β) :=
   (evalAll xs).bind (fun vs => (evalAll (vs.map f)).map (fun rs => (rs.filterMap id).flatten))
 
 /-! ### minArray / maxArray — `array_top1` behind the `is_empty` / `onEmpty` guard -/
@@ -214,11 +255,13 @@ def evalOnEmpty (onEmpty : Option (Option α)) : Option α :=
   | some t => t
   | none => none
 
-def top1Loop (key : α → Option κ) (cmp : κ → κ → Option Ordering) (want : Ordering) :
-    α → κ → List (Option α) → Option α
-  | m, _, [] => some m
-  | _, _, none :: _ => none
-  | m, mk, some c :: r =>
+/-- `for cur in iter { let cur_key = keyf.eval(cur.clone())?; if compare(cur_key, min_key)? == ordering
+    { min = cur; min_key = cur_key } }  min.evaluate()` — the scan walks the thunks, `key` is the key
+    function applied to a thunk -/
+def top1Loop (key : Option α → Option κ) (cmp : κ → κ → Option Ordering) (want : Ordering) :
+    Option α → κ → List (Option α) → Option α
+  | m, _, [] => m
+  | m, mk, c :: r =>
     match key c with
     | none => none
     | some ck =>
@@ -226,17 +269,18 @@ def top1Loop (key : α → Option κ) (cmp : κ → κ → Option Ordering) (wan
       | none => none
       | some o => if o == want then top1Loop key cmp want c ck r else top1Loop key cmp want m mk r
 
-def top1M (key : α → Option κ) (cmp : κ → κ → Option Ordering) (want : Ordering)
+def top1M (key : Option α → Option κ) (cmp : κ → κ → Option Ordering) (want : Ordering)
     (xs : List (Option α)) (onEmpty : Option (Option α)) : Option α :=
   match xs with
   | [] => evalOnEmpty onEmpty
-  | none :: _ => none
-  | some m :: r =>
+  | m :: r =>
     match key m with
     | none => none
     | some mk => top1Loop key cmp want m mk r
 
-/-- reference: scan keeping the best so far, replacing it only by a strictly better one -/
+/-- reference: scan keeping the best so far, replacing it only by a strictly better one (the
+    documented `foldl(function(a, b) if __compare(keyF(a), keyF(b)) > 0 then b else a, arr, arr[0])`;
+    polymorphic: the elements may be values or thunks) -/
 def top1Spec (k : α → κ) (ord : κ → κ → Ordering) (want : Ordering) (m : α) (r : List α) : α :=
   r.foldl (fun best c => if ord (k c) (k best) == want then c else best) m
 
@@ -403,6 +447,14 @@ def arrPieces (f : V → Option V) (x : V) : Option (Option (List V)) :=
   | some .null => some none
   | _ => none
 
+/-- the same classification for a callback on thunks whose result is a fully evaluated value: the
+    pieces are the (evaluated) elements of the returned array -/
+def arrPiecesL (f : Option V → Option V) (e : Option V) : Option (Option (List (Option V))) :=
+  match f e with
+  | some (.arr ys) => some (some (ys.map some))
+  | some .null => some none
+  | _ => none
+
 def strPieces (f : V → Option V) (x : V) : Option (Option (List Char)) :=
   match f x with
   | some (.str s) => some (some s.toList)
@@ -413,14 +465,14 @@ def charsL (s : String) : List (Option V) := (chars s).map some
 
 namespace Model
 
-/-- `Either![ArrValue, IStr]` dispatch of `builtin_foldl` -/
-def foldl (f : V → V → Option V) (c : Idx) (init : V) : Option V :=
+/-- `Either![ArrValue, IStr]` dispatch of `builtin_foldl`; `init : Thunk<Val>` -/
+def foldl (f : Option V → Option V → Option V) (c : Idx) (init : Option V) : Option V :=
   match c with
   | .arr xs => foldlLoop f init xs
   | .str s => foldlLoop f init (charsL s)
   | .other => none
 
-def foldr (f : V → V → Option V) (c : Idx) (init : V) : Option V :=
+def foldr (f : Option V → Option V → Option V) (c : Idx) (init : Option V) : Option V :=
   match c with
   | .arr xs => foldrLoop f init xs
   | .str s => foldrLoop f init (charsL s)
@@ -462,16 +514,25 @@ def mapWithIndex (f : V → Option V → Option V) (c : Idx) : Option (List (Opt
 /-- predicate as `NativeFn!((Thunk<Val>) -> bool)`: the result must be a boolean -/
 def boolPred (f : Option V → Option V) (e : Option V) : Option Bool := (f e).bind asBoolV
 
-def filter (f : Option V → Option V) (c : Idx) : Option (List (Option V)) :=
-  match c with | .arr xs => filterM (boolPred f) xs | _ => none
+def filter (f : Option V → Option V) (cheap : Bool) (c : Idx) : Option (List (Option V)) :=
+  match c with | .arr xs => filterM (boolPred f) cheap xs | _ => none
 
-def filterMap (f g : Option V → Option V) (c : Idx) : Option (List (Option V)) :=
-  match c with | .arr xs => filterMapM (boolPred f) g xs | _ => none
+def filterMap (f g : Option V → Option V) (cheap : Bool) (c : Idx) : Option (List (Option V)) :=
+  match c with | .arr xs => filterMapM (boolPred f) g cheap xs | _ => none
 
-def flatMap (f : V → Option V) (c : Idx) : Option V :=
+/-- result of `builtin_flatmap`: a lazy array or a string -/
+inductive FlatRes where
+  | arr (xs : List (Option V))
+  | str (s : String)
+
+/-- `pieces` is the callback followed by the `Val::Arr(o) => o.iter_lazy()` / `Val::Null` / other
+    classification (array branch); the string branch calls the function on evaluated characters -/
+def flatMap (pieces : Option V → Option (Option (List (Option V)))) (f : V → Option V) (c : Idx) :
+    Option FlatRes :=
   match c with
-  | .arr xs => (flatMapLoop (arrPieces f) [] xs).map V.arr
-  | .str s => (flatMapLoop (strPieces f) [] (charsL s)).map (fun cs => V.str (String.ofList cs))
+  | .arr xs => (flatMapLoop pieces [] xs).map FlatRes.arr
+  | .str s => (flatMapLoop (fun e => e.bind (strPieces f)) [] (charsL s)).map
+      (fun cs => FlatRes.str (String.ofList cs))
   | .other => none
 
 def deepJoin (v : V) : Option String :=
@@ -493,8 +554,9 @@ def sum (c : Idx) : Option Int :=
 def avg (c : Idx) (onEmpty : Option (Option V)) : Option (Avg V) :=
   match c with | .arr xs => (numsL xs).bind (fun ns => avgM ns onEmpty) | _ => none
 
-def minMax (c : Idx) (f : Option String) (want : Ordering) (onEmpty : Option (Option V)) : Option V :=
-  match c with | .arr xs => top1M (keyFn f) cmpV want xs onEmpty | _ => none
+/-- `key` = the key function applied to a thunk -/
+def minMax (c : Idx) (key : Option V → Option V) (want : Ordering) (onEmpty : Option (Option V)) : Option V :=
+  match c with | .arr xs => top1M key cmpV want xs onEmpty | _ => none
 
 def range (a b : V) : Option (List V) :=
   match a, b with
